@@ -399,6 +399,20 @@ func regressionDocs() []*docgen.Doc {
 		mk("cycle-1", map[string]any{"@id": "urn:c0", v + "next": []any{map[string]any{"@id": "urn:c0"}, map[string]any{"@id": "urn:v1"}}}),
 		mk("cycle-1", map[string]any{"@id": "_:b", v + "name": "n0", v + "next": map[string]any{"@id": "_:b"}}),
 		mk("shared-node", map[string]any{"@id": "urn:r", v + "a": map[string]any{"@id": "urn:s", v + "name": "x"}, v + "b": map[string]any{"@id": "urn:s"}}),
+		// a BLANK node with an explicit identifier referenced from two places of one graph; the second
+		// reference shares subject+predicate with another nested object (seed C01-g)
+		mk("shared-blank-array", map[string]any{"@id": "urn:r", v + "a": map[string]any{"@id": "_:x", v + "v": 1},
+			v + "b": []any{map[string]any{"@id": "_:x"}, map[string]any{v + "w": 2}}}),
+		mk("shared-blank-array", map[string]any{"@id": "urn:r", v + "b": []any{map[string]any{v + "w": 2}, map[string]any{"@id": "_:x"}},
+			v + "a": map[string]any{"@id": "_:x", v + "v": 1}}),
+		mk("shared-blank-two-fields", map[string]any{"@id": "urn:r", v + "a": map[string]any{"@id": "_:x", v + "v": 1}, v + "b": map[string]any{"@id": "_:x"}}),
+		mk("shared-blank-nested", map[string]any{"@id": "urn:r", v + "c": map[string]any{"@id": "urn:n", v + "a": map[string]any{"@id": "_:x", v + "v": 1},
+			v + "b": []any{map[string]any{"@id": "_:x"}, map[string]any{v + "w": 2}, map[string]any{v + "w": 3}}}}),
+		mk("shared-blank-in-graph", map[string]any{"@context": map[string]any{"vc": map[string]any{"@id": v + "vc", "@container": "@graph"}}, "@id": "urn:vp",
+			"vc": []any{map[string]any{"@id": "urn:c1", v + "a": map[string]any{"@id": "_:x", v + "v": 1}, v + "b": []any{map[string]any{"@id": "_:x"}, map[string]any{v + "w": 2}}},
+				map[string]any{"@id": "urn:c2", v + "name": "fine"}}}),
+		mk("shared-blank-same-property", map[string]any{"@id": "urn:r", v + "b": []any{map[string]any{"@id": "_:x", v + "v": 1}, map[string]any{v + "w": 2}},
+			v + "c": map[string]any{"@id": "urn:m", v + "b": []any{map[string]any{"@id": "_:x"}, map[string]any{v + "w": 3}}}}),
 		mk("empty-string", map[string]any{"@id": "urn:r", v + "name": ""}),
 	}
 }
@@ -1072,4 +1086,34 @@ func (d *drv) twoFieldsOneNodeDoc() *docgen.Doc {
 	}
 	b, _ := json.Marshal(doc)
 	return &docgen.Doc{Bytes: b, Obj: doc, Features: map[string]bool{"two-fields-one-node": true}, Expect: "error", Why: "shared-two-fields"}
+}
+
+// regressionRaws: fixed hand-built datasets that must be rejected (no RNG involved). A blank node
+// referenced from two places of one graph, where the second reference shares subject+predicate with
+// another nested object (so the referencing key has registered children either way).
+func regressionRaws() []*ld.RDFDataset {
+	v := docgen.Vocab
+	mk := func(named bool) *ld.RDFDataset {
+		ds := ld.NewRDFDataset()
+		g := "@default"
+		if named {
+			g = "_:g1"
+			ds.Graphs["@default"] = append(ds.Graphs["@default"], ld.NewQuad(ld.NewIRI("urn:vp"), ld.NewIRI(v+"vc"), ld.NewBlankNode(g), ""))
+		}
+		add := func(s ld.Node, p string, o ld.Node) {
+			q := ld.NewQuad(s, ld.NewIRI(v+p), o, "")
+			if named {
+				q.Graph = ld.NewBlankNode(g)
+			}
+			ds.Graphs[g] = append(ds.Graphs[g], q)
+		}
+		r, x, y := ld.NewIRI("urn:r"), ld.NewBlankNode("_:x"), ld.NewBlankNode("_:y")
+		add(r, "a", x)
+		add(r, "b", x)
+		add(r, "b", y)
+		add(x, "v", ld.NewLiteral("1", ld.XSDInteger, ""))
+		add(y, "w", ld.NewLiteral("2", ld.XSDInteger, ""))
+		return ds
+	}
+	return []*ld.RDFDataset{mk(false), mk(true)}
 }
